@@ -187,7 +187,7 @@ def cases(tier):
         for neg in (False, True):
             out.append(dict(name=f"Duration {how} neg={neg}", fn=duration, params=dict(how=how, neg=neg),
                             bounds="years 0..20, months 0..30, weeks 0..10, days 0..40, rest up to 3 days in microseconds, sign " + str(neg)))
-        for kind in ("utc", "zone"):
+        for kind in (("utc", "fixed") if tier == "quick" else ("utc", "fixed", "zone")):
             for absolute in (False, True):
                 w = zw if kind == "zone" else win
                 out.append(dict(name=f"Interval {kind} abs={absolute} {how}", fn=interval,
